@@ -47,7 +47,7 @@ fn parse_args(raw: &[String]) -> Args {
     let mut flags = Vec::new();
     let takes_value = [
         "--seed", "--from", "--to", "--stride", "--offset", "--out", "--idx",
-        "--watchdog", "--family", "--tmp", "--plan", "--threads", "--budget", "--steps",
+        "--watchdog", "--family", "--tmp", "--plan", "--threads", "--budget", "--steps", "--part",
     ];
     let mut i = 0;
     while i < raw.len() {
@@ -154,9 +154,18 @@ fn cmd_replay(a: &Args) -> Result<i32, String> {
     match out.signature {
         Some(sig) => {
             println!("SIGNATURE {}", sig);
+            if out.text.contains("UNDECIDED (blocked)") {
+                std::process::exit(1);
+            }
             Ok(1)
         }
-        None => Ok(0),
+        None => {
+            if out.text.contains("UNDECIDED (blocked)") {
+                // stuck threads: leave without joining them
+                std::process::exit(3);
+            }
+            Ok(0)
+        }
     }
 }
 
@@ -224,8 +233,15 @@ fn cmd_shard(a: &Args) -> Result<i32, String> {
         thorough: a.has("--thorough"),
         out: a.kv.get("--out").cloned().ok_or("--out missing")?,
         dump_hashes: a.has("--dump-hashes"),
+        no_park: a.has("--no-park"),
+        part: a.u64("--part", 0)?,
     };
-    shard::shard_main(sa)
+    let code = shard::shard_main(sa)?;
+    if code == 3 {
+        // threads of the abandoned run are stuck: leave without joining them
+        std::process::exit(3);
+    }
+    Ok(code)
 }
 
 fn real_main() -> Result<i32, String> {
@@ -255,6 +271,8 @@ fn real_main() -> Result<i32, String> {
                 thorough: a.has("--thorough"),
                 out: a.kv.get("--out").cloned().ok_or("--out missing")?,
                 dump_hashes: false,
+                no_park: a.has("--no-park"),
+                part: 0,
             };
             shard::mainshard(sa, cmd == "mainshard")
         }
@@ -264,7 +282,14 @@ fn real_main() -> Result<i32, String> {
             a.has("--thorough"),
             a.kv.get("--out").map(|s| s.as_str()).unwrap_or("/verif/sim/target/tmp"),
             cmd == "mainrun",
-        ),
+            a.has("--no-park"),
+        )
+        .map(|c| {
+            if c == 3 {
+                std::process::exit(3);
+            }
+            c
+        }),
         "replay" => cmd_replay(&a),
         "minimize" => cmd_minimize(&a),
         "gen" => cmd_gen(&a),
